@@ -248,6 +248,15 @@ def build_universe(ctx):
         "awkward names": {"p", "err", "ctx", "r", "_result", "success", "type", "range"} <=
         ({a["name"] for m in allm for a in m["argl"]} | {m["name"] for m in allm}),
     }
+    fns = [fn for _, d in M.services_of(u.prog) for fn in d["functions"]]
+    u.req_throws = {fn["name"] for fn in fns if any(t.get("req") == "required" for t in fn.get("throws") or [])}
+    need["throws written required and optional"] = bool(u.req_throws) and any(
+        t.get("req") == "optional" for fn in fns for t in fn.get("throws") or [])
+    need["arguments written optional and required"] = {"optional", "required"} <= {a.get("req") for fn in fns for a in fn["args"]}
+    by = {s["name"]: s for s in u.svcs}
+    need["derived service whose included base shares its bare name with an unrelated local service"] = any(
+        s["base"] and by[s["base"]]["file"] != s["file"] and
+        any(o["idl"] == by[s["base"]]["idl"] and o["file"] == s["file"] for o in u.svcs) for s in u.svcs)
     missing = [k for k, v in need.items() if not v]
     if missing:
         raise vlib.MachineryError("vacuous universe: missing " + ", ".join(missing))
@@ -526,6 +535,11 @@ def run(ctx, args):
         "oneway followed by a call": any(len(c["calls"]) >= 2 and c["calls"][0].get("exp", {}).get("k") == "none"
                                          and c["calls"][1].get("exp", {}).get("k") not in ("none", None) for c in cases),
         "inherited through two included files": any(x.get("ds") == "Root" and c["svc"] == "Svc" for c, x in flat),
+        "successful call of a method with a `required` throws entry": any(
+            x.get("m") in u.req_throws and x["out"]["k"] in ("val", "void") for _, x in flat),
+        "exception from a method with a `required` throws entry": any(
+            x.get("m") in u.req_throws and x["out"]["k"] == "exc" for _, x in flat),
+        "call inherited from the included namesake service": any(x.get("m") == "shared_inc" and c["svc"] == "Ext" for c, x in flat),
         "nil struct argument": any(a == {"nil": True} for _, x in flat for a in x.get("args", [])),
     }
     missing = [k for k, v in need.items() if not v]
